@@ -163,8 +163,32 @@ def run(ctx):
 
     _check_lexer(ctx, ptab, parser)
     _check_whole_input(ctx, model)
-    _check_arglist(ctx, model)
-    _arglist_trailing_comma(ctx, model)
+    owner_, fn_ = model.require_method(f"{PARSER}:Parser", "parse_arglist")
+    try:
+        wit, n_ = _judge_arglist(model, model.inlined(fn_), owner_.module.tree,
+                                 *((10, 6) if ctx.tier == "thorough" else (8, 4)))
+    except AnalysisError as e:
+        wit = None
+        ctx.extra["judge_unavailable:parse_arglist"] = str(e)
+    if wit is not None:
+        ctx.ob("P0/parse_arglist/token-language", not wit,
+               owner_.module.loc(fn_),
+               f"parse_arglist interpreted on {n_} token strings: accepts "
+               "exactly Python's argument lists (one optional trailing comma, "
+               "no positional after keyword), returns (positional, keyword) in "
+               "order and stops after ')'" if not wit else
+               "parse_arglist: " + "; ".join(wit[:3]),
+               {"token_strings": n_, "witnesses": wit[:8]})
+    mark = len(ctx.obs)
+    try:
+        _check_arglist(ctx, model)
+        _arglist_trailing_comma(ctx, model)
+    except AnalysisError:
+        if wit is None or wit:
+            raise
+    if wit is not None and not wit:
+        ctx.withdraw_failures_since(
+            mark, "decided by interpreting parse_arglist on token strings")
     check_importer(ctx, model, "C07", parser)
 
 
@@ -349,6 +373,193 @@ def _check_whole_input(ctx, model):
     ctx.ob("P/Parser.__call__/only-whitespace-dropped", ok, loc,
            "only whitespace tokens are dropped" if ok else
            "the token filter in Parser.__call__ drops more than whitespace")
+
+
+def _judge_arglist(model, fn, tree, max_len, full_len=4):
+    """interpretive judge (pv/absint.py): parse_arglist interpreted on every
+    token string up to max_len over {identifier, '=', other operand, ',', ')'}
+    against Python's argument list
+        ')'  |  arg (',' arg)* [','] ')'      arg: identifier '=' expr | expr
+    (no positional argument after a keyword argument), with parse_expression
+    standing for 'one operand, parsed below comma level'.  -> (witnesses, n)"""
+    import itertools
+    from ..absint import Interp, Opaque, Raised, StepBound, module_env
+
+    class PErr(Exception):
+        pass
+
+    class Crash(Exception):
+        pass
+    tags = {}
+    for st in tree.body:
+        if isinstance(st, ast.Assign) and len(st.targets) == 1 and \
+                isinstance(st.targets[0], ast.Name) and \
+                isinstance(st.value, ast.Call) and \
+                ast.unparse(st.value.func) in ("intern", "sys.intern") and \
+                st.value.args and isinstance(st.value.args[0], ast.Constant):
+            tags[st.targets[0].id] = "tag:" + st.value.args[0].value
+    need = {"_comma", "_closepar", "_identifier", "_assign"}
+    if not need <= set(tags):
+        raise AnalysisError("parse_arglist: token tags not found")
+    ID, EQ, OP, CM, CL = (tags["_identifier"], tags["_assign"], "tag:operand",
+                          tags["_comma"], tags["_closepar"])
+
+    class PState:
+        def __init__(self, toks, index=0):
+            self.toks, self.index = toks, index
+
+        def copy(self):
+            return PState(self.toks, self.index)
+
+        def assign(self, o):
+            self.index = o.index
+
+        def next_tag(self, i=0):
+            if self.index + i >= len(self.toks):
+                raise Crash("IndexError: next_tag() past the end of the input")
+            return self.toks[self.index + i]
+
+        def next_str(self, i=0):
+            self.next_tag(i)
+            return f"s{self.index + i}"
+
+        def next_str_and_advance(self):
+            r = self.next_str()
+            self.index += 1
+            return r
+
+        def advance(self):
+            self.index += 1
+
+        def is_at_end(self, i=0):
+            return self.index + i >= len(self.toks)
+
+        def is_next(self, tag, i=0):
+            return self.index + i < len(self.toks) and \
+                self.toks[self.index + i] is tag
+
+        def raise_parse_error(self, msg):
+            raise PErr(msg)
+
+        def expected(self, what):
+            raise PErr(what)
+
+        def expect_not_end(self):
+            if self.is_at_end():
+                raise PErr("end")
+
+        def expect(self, tag):
+            if not self.is_next(tag):
+                raise PErr("expected")
+
+    class Mp:
+        pass
+    glob = module_env(tree, dict(tags))
+    prec_comma = glob.get("_PREC_COMMA")
+
+    def reference(toks):
+        """-> (args, kwargs, consumed) or None"""
+        i, args, kw = 0, [], {}
+        if toks[:1] == [CL]:
+            return (), {}, 1
+        while True:
+            if i >= len(toks):
+                return "more"
+            if i < len(toks) - 1 and toks[i] is ID and toks[i + 1] is EQ:
+                if i + 2 >= len(toks):
+                    return "more"
+                if toks[i + 2] in (ID, OP):
+                    kw[f"s{i}"] = ("e", i + 2)
+                    i += 3
+                else:
+                    return None
+            elif toks[i] in (ID, OP):
+                if kw:
+                    return None
+                args.append(("e", i))
+                i += 1
+            else:
+                return None
+            if i >= len(toks):
+                return "more"
+            if toks[i] is CM:
+                i += 1
+            elif toks[i] is CL:
+                return tuple(args), kw, i + 1
+            else:
+                return None
+            if i < len(toks) and toks[i] is CL:
+                return tuple(args), kw, i + 1
+    wit = []
+    n = 0
+    for L in range(0, max_len + 1):
+        for toks in itertools.product((ID, EQ, OP, CM, CL), repeat=L):
+            toks = list(toks)
+            if CL in toks[:-1]:
+                continue        # (what follows the first ')' is not ours)
+            if L > full_len and reference(toks[:L - 2]) != "more":
+                continue        # (long strings: errors in the last two tokens)
+            n += 1
+            ps = PState(toks)
+            mp = Mp()
+            precs = []
+
+            def parse_expression(p_, prec=0, _precs=precs):
+                _precs.append(prec)
+                if p_.is_at_end() or p_.toks[p_.index] not in (ID, OP):
+                    raise PErr("operand expected")
+                p_.index += 1
+                return ("e", p_.index - 1)
+
+            def attrs(it, node, base, attr, _mp=mp, _pe=parse_expression):
+                if base is _mp and attr == "parse_expression":
+                    return _pe
+                if isinstance(base, PState):
+                    return getattr(base, attr)
+                return Opaque(ast.unparse(node))
+            it = Interp(attrs=attrs, max_steps=4000, globals_=glob)
+            show = " ".join(t[4:] for t in toks) or "(nothing)"
+            want = reference(toks)
+            if want == "more":
+                want = None         # (the input ends inside the list)
+            try:
+                got = it.call_function(fn, [mp, ps], dict(glob))
+            except PErr:
+                got = None
+            except Crash as e:
+                wit.append(f"tokens '{show}': {e}")
+                continue
+            except Raised as r:
+                wit.append(f"tokens '{show}': raises at line "
+                           f"{getattr(r.node, 'lineno', '?')}")
+                continue
+            except StepBound:
+                wit.append(f"tokens '{show}': does not terminate")
+                continue
+            if got is not None:
+                if not (isinstance(got, tuple) and len(got) == 2
+                        and isinstance(got[0], tuple)
+                        and isinstance(got[1], dict)):
+                    wit.append(f"tokens '{show}': returns {got!r}, not "
+                               "(tuple of positional, dict of keyword)")
+                    continue
+                got = (got[0], got[1], ps.index)
+                if any(p_ != prec_comma for p_ in precs):
+                    wit.append(f"tokens '{show}': an argument is not parsed "
+                               "at comma level")
+                    continue
+            if got != want:
+                if want is None:
+                    wit.append(f"tokens '{show}' accepted as {got[:2]} "
+                               "(Python refuses this argument list)")
+                elif got is None:
+                    wit.append(f"tokens '{show}' refused (Python reads "
+                               f"{len(want[0])} positional, {len(want[1])} "
+                               "keyword arguments)")
+                else:
+                    wit.append(f"tokens '{show}': read as {got}, Python reads "
+                               f"{want}")
+    return wit, n
 
 
 def _check_arglist(ctx, model):
@@ -633,6 +844,113 @@ def _judge_map_compare(pss, rec_attr):
     return True
 
 
+def _interp_map_compare(model, cls, fn):
+    """interpretive judge (pv/absint.py): map_Compare on chains of 1..4
+    operators.  Python:  a op1 b op2 c  ==  (a op1 b) and (b op2 c), each a
+    Comparison(left, table[type(op)], right) over the mapped operands in order.
+    -> witnesses"""
+    from ..absint import Interp, Obj, Opaque, Raised, StepBound, module_env
+    tbl = cls.members.get("comparison_op_map")
+    val = getattr(tbl.node, "value", None) if tbl is not None else None
+    if not isinstance(val, ast.Dict):
+        raise AnalysisError("comparison_op_map is not a dict literal")
+    table = {}
+    for k, v in zip(val.keys, val.values):
+        if not (isinstance(k, ast.Attribute) and isinstance(v, ast.Constant)):
+            raise AnalysisError("comparison_op_map entry")
+        table["T:" + k.attr] = v.value
+    opnames = [k[2:] for k in table]
+    if len(opnames) < 3:
+        raise AnalysisError("comparison_op_map: too few operators")
+
+    class Node:
+        def __init__(self, kind, *a):
+            self.kind, self.a = kind, a
+
+        def __eq__(self, o):
+            return isinstance(o, Node) and (self.kind, self.a) == (o.kind, o.a)
+
+        def __hash__(self):
+            return hash((self.kind, self.a))
+
+        def __repr__(self):
+            return f"{self.kind}{self.a!r}"
+
+    def resolve(c, nm):
+        if c == "ASTToPymbolic":
+            mem = model.lookup(cls, nm)
+            if mem is not None and mem.kind == "func":
+                return ("func", mem.node)
+        return None
+    glob = module_env(cls.module.tree, {"p": Opaque("p"), "ast": Opaque("ast")})
+    wit = []
+    for n in range(1, 5):
+        ops = [Obj("op", {"name": opnames[i % len(opnames)]}) for i in range(n)]
+        left = Obj("operand", {"i": 0})
+        comps = [Obj("operand", {"i": i + 1}) for i in range(n)]
+        node = Obj("Compare", {"left": left, "ops": list(ops),
+                               "comparators": list(comps)})
+        me = Obj("ASTToPymbolic", {"comparison_op_map": dict(table)})
+        order = []
+
+        def rec(it, nd, a, k, _o=order):
+            if not (isinstance(a[0], Obj) and a[0].cls == "operand"):
+                raise AnalysisError("map_Compare: rec of something that is "
+                                    "not an operand")
+            _o.append(a[0].fields["i"])
+            return ("m", a[0].fields["i"])
+
+        def type_(it, nd, a, k):
+            if isinstance(a[0], Obj) and a[0].cls == "op":
+                return "T:" + a[0].fields["name"]
+            if isinstance(a[0], Obj):
+                return Opaque("class " + str(a[0].cls))
+            raise AnalysisError("type() of a value")
+
+        def attrs(it, nd, base, attr):
+            if isinstance(base, Opaque) and base.what in ("p", "primitives") \
+                    and attr in ("Comparison", "LogicalAnd", "LogicalOr"):
+                return lambda *a, _k=attr: Node(_k, *[
+                    tuple(x) if isinstance(x, list) else x for x in a])
+            return Opaque(ast.unparse(nd))
+        it = Interp(calls={"self.rec": rec, "type": type_}, attrs=attrs,
+                    resolve=resolve, max_steps=20000, globals_=glob)
+        chain = " ".join(f"v{i} {table['T:' + ops[i].fields['name']]}"
+                         for i in range(n)) + f" v{n}"
+        try:
+            got = it.call_function(fn, [me, node], dict(glob))
+        except (Raised, StepBound) as e:
+            wit.append(f"'{chain}': {type(e).__name__} at line "
+                       f"{getattr(getattr(e, 'node', None), 'lineno', '?')}")
+            continue
+        links = tuple(Node("Comparison", ("m", i),
+                           table["T:" + ops[i].fields["name"]], ("m", i + 1))
+                      for i in range(n))
+        want = links[0] if n == 1 else Node("LogicalAnd", links)
+        if got != want:
+            wit.append(f"'{chain}' is imported as {got!r}, Python means "
+                       f"{want!r}")
+        elif sorted(set(order)) != list(range(n + 1)):
+            wit.append(f"'{chain}': not every operand is mapped")
+    # an operator the table does not have is refused, not mis-read
+    node = Obj("Compare", {"left": Obj("operand", {"i": 0}),
+                           "ops": [Obj("op", {"name": "NoSuchOp"})],
+                           "comparators": [Obj("operand", {"i": 1})]})
+    me = Obj("ASTToPymbolic", {"comparison_op_map": dict(table)})
+    it = Interp(calls={"self.rec": lambda it_, nd, a, k: ("m", a[0].fields["i"]),
+                       "type": lambda it_, nd, a, k: "T:" + a[0].fields["name"]
+                       if isinstance(a[0], Obj) and a[0].cls == "op"
+                       else Opaque("class")},
+                attrs=lambda it_, nd, base, attr: Opaque(ast.unparse(nd)),
+                resolve=resolve, max_steps=20000, globals_=glob)
+    try:
+        got = it.call_function(fn, [me, node], dict(glob))
+        wit.append(f"an operator missing from the table is imported as {got!r}")
+    except (Raised, StepBound):
+        pass
+    return wit
+
+
 def check_importer(ctx, model, prop, parser=None):
     m = model.repo.module(IAST)
     cls = model.cls(f"{IAST}:ASTToPymbolic")
@@ -783,7 +1101,25 @@ def check_importer(ctx, model, prop, parser=None):
            "IfExp(test, body, orelse) -> If(condition, then, else_)" if ok else
            "map_IfExp does not build If(rec(test), rec(body), rec(orelse))")
     owner, fn, pss = ret_of("map_Compare")
-    verdict = _judge_map_compare(pss, rec_attr)
+    try:
+        wit = _interp_map_compare(model, cls, fn)
+    except AnalysisError as e:
+        wit = None
+        ctx.extra["judge_unavailable:map_Compare"] = str(e)
+    if wit is not None:
+        ctx.ob("P0/importer/map_Compare/chains", not wit, owner.module.loc(fn),
+               "chains of 1..4 comparison operators are imported as the "
+               "conjunction of their links, operands in order; an unknown "
+               "operator is refused" if not wit else
+               "map_Compare: " + "; ".join(wit[:3]))
+    try:
+        verdict = _judge_map_compare(pss, rec_attr)
+    except AnalysisError:
+        if wit is None or wit:
+            raise
+        verdict = True
+    if wit is not None and not wit and verdict is not True:
+        verdict = True      # (shape not recognised; the interpretation decides)
     ctx.ob("T/importer/map_Compare", verdict is True, owner.module.loc(fn),
            "each link Comparison(left, table[op], right) over the operands in "
            "order; a chain becomes the conjunction of its links"
